@@ -490,10 +490,18 @@ func (ex *Exec) applyContract(fr *frame, st *State, reach *Term, fn *ssa.Functio
 	// results
 	res := fn.Signature.Results()
 	var results []Value
-	for i := 0; i < res.Len(); i++ {
-		v := ex.vc.FreshConst(cname+".res", ex.vc.SortOf(res.At(i).Type()))
-		ex.assumeResultTyping(st, reach, v, res.At(i).Type())
-		results = append(results, v)
+	if _, functional := fc.Opts["functional"]; functional {
+		// a deterministic, heap-independent function: its results are functions of its arguments
+		if rv := ex.functionalResults(st, reach, fn, args); rv != nil {
+			results = rv
+		}
+	}
+	if results == nil {
+		for i := 0; i < res.Len(); i++ {
+			v := ex.vc.FreshConst(cname+".res", ex.vc.SortOf(res.At(i).Type()))
+			ex.assumeResultTyping(st, reach, v, res.At(i).Type())
+			results = append(results, v)
+		}
 	}
 	post := &SpecEnv{ex: ex, pkg: pkg, names: se.names, cur: st, old: pre, reach: reach}
 	bindResults(post, fn.Signature, results)
@@ -829,4 +837,28 @@ func (eng *Engine) VerifyLemma(lm *Lemma) (res *FuncResult) {
 	g := se.evalBool(lm.Expr)
 	vc.Oblige(&Obligation{Name: name, Kind: "lemma", Tags: lm.Tags, Guard: TTrue, Goal: g, Func: name, Pos: fmt.Sprintf("%s:%d", lm.File, lm.Line), Note: lm.Text})
 	return res
+}
+
+func (ex *Exec) functionalResults(st *State, reach *Term, fn *ssa.Function, args []Value) []Value {
+	var targs []*Term
+	var sorts []string
+	for _, a := range args {
+		t, ok := a.(*Term)
+		if !ok {
+			return nil
+		}
+		targs = append(targs, t)
+		sorts = append(sorts, string(t.Sort))
+	}
+	res := fn.Signature.Results()
+	var out []Value
+	for i := 0; i < res.Len(); i++ {
+		name := fmt.Sprintf("fn.%s.%d", sanitize(funcKey(fn)), i)
+		rs := ex.vc.SortOf(res.At(i).Type())
+		ex.vc.declare(name, fmt.Sprintf("(declare-fun %s (%s) %s)", name, strings.Join(sorts, " "), rs))
+		v := ex.vc.Def(fn.Name()+".res", App(name, rs, targs...))
+		ex.assumeResultTyping(st, reach, v, res.At(i).Type())
+		out = append(out, v)
+	}
+	return out
 }
